@@ -1,0 +1,8 @@
+//go:build verif
+
+// Contracts for package conversions (second file), read as text by the verification-condition
+// generator in /verif. This file contains no code.
+
+package conversions
+
+//@ structural conversions-bigfloat-ops: callees conversions@conversions.BigFloatToPBigDecimalFloat|conversions.BigFloatToString into math/big: (*Float).Text (*Float).Prec
